@@ -111,6 +111,8 @@ def expr(draw, env: Env, t: str, depth: int = 2):
             forms += ["dictget"] if t == "Optional[int]" else []
         if t in ("A", "B", "E", "object", "int | str"):
             forms += ["call_ident"]
+        if t == "object":
+            forms += ["starindex", "starindex", "dictindex"]
     form = draw(st.sampled_from(forms))
     sub = lambda tt: draw(expr(env, tt, depth - 1))
     if form == "var":
@@ -176,9 +178,30 @@ def expr(draw, env: Env, t: str, depth: int = 2):
         return f"({sub('int')}, {sub('str')})"
     if form == "tupslice":
         return f"{sub('tuple[int, ...]')}[{draw(st.sampled_from(['1:', ':1']))}]"
+    if form == "starindex":
+        return f"{draw(star_display(env, depth - 1))}[{draw(st.integers(-5, 5))}]"
+    if form == "dictindex":
+        return f"{sub('dict[str, int]')}[{sub('str')}]"
     if form == "dictget":
         return f"{sub('dict[str, int]')}.get({sub('str')})"
     return draw(st.sampled_from(LITERALS[t]))
+
+
+SINGLE_TYPES = ["int", "str", "bytes", "None", "float", "E"]
+
+
+@st.composite
+def star_display(draw, env: Env, depth: int = 1):
+    """A tuple or list display with one starred part of unknown length between single elements whose
+    types differ: `(1, *xs, "a", b"z")`."""
+    single = lambda: draw(expr(env, draw(st.sampled_from(SINGLE_TYPES)), max(depth, 0)))
+    pre = [single() for _ in range(draw(st.integers(0, 2)))]
+    post = [single() for _ in range(draw(st.integers(0, 4)))]
+    star = "*" + draw(expr(env, draw(st.sampled_from(["tuple[int, ...]", "list[int]", "str", "list[str]"])), max(depth, 0)))
+    parts = pre + [star] + post
+    if draw(st.booleans()):
+        return "[" + ", ".join(parts) + "]"
+    return "(" + ", ".join(parts) + ("," if len(parts) == 1 else "") + ")"
 
 
 # ----------------------------------------------------------------- narrowing conditions
@@ -267,7 +290,7 @@ def block(draw, env: Env, ret_t: str, depth: int, in_loop: bool, indent: int):
     lines = []
     n = draw(st.integers(1, 3))
     for _ in range(n):
-        kinds = ["assign", "assign", "use", "use"]
+        kinds = ["assign", "assign", "use", "use", "unpack", "use-index"]
         if depth > 0:
             kinds += ["if", "if", "ifelse", "for", "while", "try", "with", "match", "assert", "walrus", "stored-test", "stored-test"]
         kinds.append("return")
@@ -282,6 +305,32 @@ def block(draw, env: Env, ret_t: str, depth: int, in_loop: bool, indent: int):
                 name, t = env.fresh(), draw(st.sampled_from(PARAM_TYPES))
             lines.append(f"{pad}{name} = {draw(expr(env, t, 2))}")
             env.vars[name] = t
+        elif k == "use-index":
+            # an indexing expression of no particular type, observed directly
+            lines.append(f"{pad}use({draw(star_display(env, 1))}[{draw(st.integers(-5, 5))}])")
+        elif k == "unpack":
+            form = draw(st.sampled_from(["pair", "head", "last", "star", "nested"]))
+            a, b, r = env.fresh(), env.fresh(), env.fresh()
+            if form == "pair":
+                lines.append(f"{pad}{a}, {b} = {draw(expr(env, 'tuple[int, str]', 2))}")
+                env.vars[a], env.vars[b] = "int", "str"
+            elif form == "head":
+                lines.append(f"{pad}{a}, *{r} = {draw(expr(env, draw(st.sampled_from(['list[int]', 'tuple[int, ...]'])), 1))}")
+                env.vars[a], env.vars[r] = "int", "list[int]"
+            elif form == "last":
+                lines.append(f"{pad}*{r}, {b} = {draw(expr(env, 'list[str]', 1))}")
+                env.vars[b], env.vars[r] = "str", "list[str]"
+            elif form == "nested":
+                lines.append(f"{pad}({a}, {b}), {r} = ({draw(expr(env, 'tuple[int, str]', 1))}, {draw(expr(env, 'list[int]', 1))})")
+                env.vars[a], env.vars[b], env.vars[r] = "int", "str", "list[int]"
+            else:
+                targets = draw(st.sampled_from([f"{a}, *{r}, {b}", f"*{r}, {a}, {b}", f"{a}, {b}, *{r}", f"{a}, *{r}"]))
+                lines.append(f"{pad}{targets} = {draw(star_display(env, 1))}")
+                lines.append(f"{pad}use({r})")
+                env.vars[a] = "object"
+                if b in targets:
+                    env.vars[b] = "object"
+            lines.append(f"{pad}use({a})")
         elif k == "use":
             if env.vars:
                 lines.append(f"{pad}use({draw(st.sampled_from(sorted(env.vars)))})")
@@ -300,8 +349,25 @@ def block(draw, env: Env, ret_t: str, depth: int, in_loop: bool, indent: int):
             it_t = draw(st.sampled_from(["list[int]", "tuple[int, ...]", "str", "list[str]", "dict[str, int]"]))
             el_t = {"list[int]": "int", "tuple[int, ...]": "int", "str": "str", "list[str]": "str", "dict[str, int]": "str"}[it_t]
             name = env.fresh()
-            lines.append(f"{pad}for {name} in {draw(expr(env, it_t, 1))}:")
             inner = Env_copy(env)
+            how = draw(st.sampled_from(["plain", "plain", "enumerate", "items", "pairs"]))
+            if how == "enumerate":
+                idx = env.fresh()
+                lines.append(f"{pad}for {idx}, {name} in enumerate({draw(expr(env, it_t, 1))}):")
+                inner.vars[idx] = "int"
+            elif how == "items":
+                val = env.fresh()
+                lines.append(f"{pad}for {name}, {val} in {draw(expr(env, 'dict[str, int]', 1))}.items():")
+                el_t = "str"
+                inner.vars[val] = "int"
+            elif how == "pairs":
+                second = env.fresh()
+                n_pairs = draw(st.integers(0, 2))
+                lines.append(f"{pad}for {name}, {second} in [{', '.join(draw(expr(env, 'tuple[int, str]', 1)) for _ in range(n_pairs))}]:")
+                el_t = "int"
+                inner.vars[second] = "str"
+            else:
+                lines.append(f"{pad}for {name} in {draw(expr(env, it_t, 1))}:")
             inner.vars[name] = el_t
             lines += draw(block(inner, ret_t, depth - 1, True, indent + 1))
         elif k == "while":
